@@ -294,14 +294,21 @@ def run(chk, replay):
             kind = "bytes" if rng.random() < 0.12 else "utf8"
             err = rng.choice([b"", b"", b"", b"", b"", b"warn\n"])
             dyn.append((gen_items(rng, risky_p=0.2, maxn=4), rng.random() < 0.5, gen_out(rng, size, kind), err))
-        for its, at_start, outb, errb in dyn:
+        # producers that are executed more than once in the run: the first attempts print something else and fail; the value
+        # is the trimmed stdout of the LAST attempt only
+        multi = {}
+        for j in (1, 2, len(SIZES) + 1, len(SIZES) + 4):
+            if j < len(dyn): multi[j] = 1 + (j % 2)
+        for j in range(len(dyn)):
+            if j >= len(SIZES) + 8 and rng.random() < 0.25: multi[j] = rng.choice([1, 1, 2])
+        for j, (its, at_start, outb, errb) in enumerate(dyn):
             p = render(its)
             cid = "d%d" % k; k += 1
             names = sorted({it[1] for it in its if it[0] in ("named", "namedQ")})
             want = ["OUT"] + [str(i + 1) for i in range(len(its) + 1)] + names
             c = {"id": cid, "mode": "dyn", "params": hx("dflt" if at_start else p), "start": hx(p) if at_start else "",
                  # through the API client only without CR / LF (F25: line breaks are outside the documented syntax there)
-                 "via": bool(at_start and rng.random() < 0.5 and "\n" not in p and "\r" not in p), "out": outb.hex(), "errout": errb.hex(), "want": [hx(w) for w in want],
+                 "via": bool(at_start and rng.random() < 0.5 and "\n" not in p and "\r" not in p), "out": outb.hex(), "errout": errb.hex(), "pfails": multi.get(j, 0), "want": [hx(w) for w in want],
                  "timeout": 60000}
             cases.append(c)
             meta[cid] = {"kind": "dyn", "items": its, "p": p, "at_start": at_start}
@@ -401,6 +408,10 @@ def run(chk, replay):
             continue
         # ------------------------------------------------ dynamic case
         stats["dyn"] += 1
+        if c.get("pfails"):
+            stats["dyn_multi_attempt_producers"] = stats.get("dyn_multi_attempt_producers", 0) + 1
+            if str(r.get("producer_attempts")) != str(c["pfails"] + 1) and not r.get("timeout"):
+                chk.oblige("harness-expectation:%s" % cid, False, "producer ran %s times, %d expected" % (r.get("producer_attempts"), c["pfails"] + 1))
         outb, errb = unhx(c["out"]), unhx(c["errout"])
         stats["out_sizes"].append(len(outb))
         its = [tuple(i) for i in m["items"]]
